@@ -354,7 +354,10 @@ func (r *Replica) Close() {
 func (r *Replica) closeApp() {
 	defer func() { recover() }()
 	if r.App != nil {
-		r.App.Close()
+		a := r.App
+		r.App = nil
+		a.VerifCloseStores()
+		a.Close()
 	}
 }
 
